@@ -118,6 +118,7 @@ def bound(tier):
 
 def describe(tier):
     return {'bases': bases(tier), 'deviation_bound': bound(tier), 'axes': AXES,
+            'long_base': '%s at deviation <= %d' % (LONG_BASE, bound(tier) - 1),
             'level1_spellings': len(L1_TEXTS), 'level2_spellings': len(L2_TEXTS), 'level3_spellings': len(L3_TEXTS),
             'multi_chain': 'all ordered pairs and triples of %d chains x link words' % len(CHAINS)}
 
@@ -132,10 +133,13 @@ def axes_for(seq):
     return ax
 
 
+LONG_BASE = 'PEMKACDEFGHK'   # 12 residues: positions and interval bounds with two digits
+
+
 def shards(tier):
     out = []
-    for seq in bases(tier):
-        for sh in space.dev_shards(axes_for(seq), bound(tier)):
+    for seq in bases(tier) + [LONG_BASE]:
+        for sh in space.dev_shards(axes_for(seq), bound(tier) if seq != LONG_BASE else bound(tier) - 1):
             if 'order' in sh['axes'] and len(PREFIX_AXES & set(sh['axes'])) < 2:
                 continue
             sh['seq'] = seq
